@@ -351,6 +351,40 @@ def check_views(s, ix, record, counters):
                 if [u for u, _ in got] != [u for u, _ in want] or any(abs(a[1] - b[1]) > 1e-9 for a, b in zip(got, want)):
                     raise Violation("mask_is_difference", "%s: %s mask(%s)=%s returned %s, the unmasked ranking minus the mask is %s"
                                     % (where, desc, how, Q.show(fspec), got[:8], want[:8]), sig="mask:" + how)
+            # ---- filter and mask together; the caller's filter/mask objects are the caller's: a search
+            # must leave them as they were (they are used again for the next request)
+            mspec = record["queries"][(record["queries"].index(spec) + 2) % len(record["queries"])]
+            mq = Q.build(mspec, mi.schema)
+            mset = Q.evaluate(mspec, docs, mi.schema)
+            mres = run(mq, limit=None)
+            mdocs = set(mres.docs())
+            for how, fobj, mobj in (("query", fq, mq), ("results", fres, mres), ("idset", fdocs, mdocs)):
+                counters["evals"] += 1
+                before = (set(fres.docs()), set(fdocs), [h["u"] for h in fres], set(mres.docs()), set(mdocs))
+                both = run(q, limit=None, filter=fobj, mask=mobj)
+                got = [h["u"] for h in both]
+                want = [h["u"] for h in full if h["u"] in fset and h["u"] not in mset]
+                if got != want:
+                    raise Violation("filter_is_intersection", "%s: %s filter(%s)=%s mask=%s returned %s, the ranking restricted to filter minus mask is %s"
+                                    % (where, desc, how, Q.show(fspec), Q.show(mspec), got[:8], want[:8]), sig="filter_and_mask:" + how)
+                after = (set(fres.docs()), set(fdocs), [h["u"] for h in fres], set(mres.docs()), set(mdocs))
+                if after != before:
+                    raise Violation("filter_is_intersection", "%s: %s: a search with filter and mask given as %s changed the caller's filter/mask objects (filter had %d documents, now %d)"
+                                    % (where, desc, how, len(before[0]), len(after[0])), sig="filter_object_modified:" + how)
+                again = [h["u"] for h in run(q, limit=None, filter=fobj)]
+                want2 = [h["u"] for h in full if h["u"] in fset]
+                if again != want2:
+                    raise Violation("filter_is_intersection", "%s: %s filter(%s) used again after a filter+mask search returned %s, expected %s"
+                                    % (where, desc, how, again[:8], want2[:8]), sig="filter_reuse:" + how)
+            # ---- a limited collapsed search is the head of the unlimited collapsed search
+            for f in [x for x in ("so", "n") if x in mi.field_names]:
+                counters["evals"] += 1
+                allc = pairs(run(q, limit=None, collapse=f, collapse_limit=1))
+                for k in (2, 4, 7):
+                    limc = pairs(run(q, limit=k, collapse=f, collapse_limit=1))
+                    if limc != allc[:k]:
+                        raise Violation("collapse_keeps_best_n", "%s: %s collapse=%s limit=%d returned %s, the unlimited collapsed result starts %s"
+                                        % (where, desc, f, k, limc, allc[:k]), sig="collapse_limit_prefix:" + f)
             # ---- paging
             for pagelen in (1, 2, 3, 10):
                 total = len(ranking)
